@@ -5,6 +5,7 @@ import (
 	"fmt"
 
 	"cosmossdk.io/log"
+	"cosmossdk.io/x/feegrant"
 	wasmkeeper "github.com/CosmWasm/wasmd/x/wasm/keeper"
 	sdk "github.com/cosmos/cosmos-sdk/types"
 
@@ -163,6 +164,15 @@ func setup(variant int) (*env, error) {
 		}
 	}
 	c.Skip(1)
+	// u0 authorises u3 to act for it (fee grant): paloma's ante decorator then accepts messages
+	// whose creator is u0 and whose only signer is u3. The requester of such a message is u0.
+	grant, err := feegrant.NewMsgGrantAllowance(&feegrant.BasicAllowance{}, e.users[0].Addr, e.users[3].Addr)
+	if err != nil {
+		return e, err
+	}
+	if res := c.Deliver(e.users[0].Acct, grant); !res.OK() {
+		return e, fmt.Errorf("fee grant u0->u3 failed: %s", res.Log)
+	}
 	if _, err := world.BuildSnapshot(c); err != nil {
 		return e, fmt.Errorf("snapshot: %w", err)
 	}
